@@ -510,8 +510,10 @@ Definition relabel (o : option cls) (c : cls) : cls := match o with Some c' => c
 
 (* ---------------- the convention each token is expected to follow ---------------- *)
 (* [q0] the quote_char of the outermost call; [s0 a0 k0] the secondary / alias quote and as_keyword of the outermost call *)
-Record conv := { v_q : option string; v_sq : option string; v_aq : option string; v_as : bool }.
-Definition conv_of (c : ctx) : conv := {| v_q := q c; v_sq := sq c; v_aq := aq c; v_as := askw c |}.
+(* [v_adm]: the classes that may supply defaults below a function call (the image of the re-labelling) *)
+Record conv := { v_q : option string; v_sq : option string; v_aq : option string; v_as : bool; v_adm : cls -> bool }.
+Definition conv_of (c : ctx) (adm : cls -> bool) : conv := {| v_q := q c; v_sq := sq c; v_aq := aq c; v_as := askw c; v_adm := adm |}.
+Definition og_adm (v : conv) (og : origin) : bool := match og with OFn (Some c) => v_adm v c | _ => true end.
 Definition og_sq (v : conv) (og : origin) : option string :=
   match og with OTop => v_sq v | OFn None => Some "'" | OFn (Some c) => cls_sq c end.
 Definition og_aq (v : conv) (og : origin) : option string :=
@@ -520,7 +522,7 @@ Definition og_as (v : conv) (og : origin) : bool :=
   match og with OTop => v_as v | OFn None => false | OFn (Some c) => cls_askw c end.
 
 (* EXACT: what the code does (proved for every token of every statement) *)
-Definition exact_tok (v : conv) (t : dtok) : Prop :=
+Definition exact_q (v : conv) (t : dtok) : Prop :=
   match snd t with
   | AId RIdent qu _ _ => qu = v_q v
   | AId RAlias qu _ og => qu = or_ostr (og_aq v og) (v_q v)
@@ -534,6 +536,14 @@ Definition exact_tok (v : conv) (t : dtok) : Prop :=
   | AAs kw og => kw = og_as v og
   | _ => True
   end.
+
+Definition adm_tok (v : conv) (t : dtok) : Prop :=
+  match snd t with
+  | AId (RQAlias ci) _ _ og => og_adm v og = true /\ (v_adm v ci = true \/ ci = CQuery)
+  | AId _ _ _ og | AStr _ _ og | AAs _ og => og_adm v og = true
+  | _ => True
+  end.
+Definition exact_tok (v : conv) (t : dtok) : Prop := exact_q v t /\ adm_tok v t.
 
 (* STRICT: what the property demands — the outermost convention for every role, whatever the position.
    [qa] is the outer class's own query-alias quote (QUERY_ALIAS_QUOTE_CHAR, else ALIAS_QUOTE_CHAR). *)
